@@ -27,5 +27,19 @@ def note_option_to_dbml(note: 'Note') -> str:
         return f"note: '{prepare_text_for_dbml(note.text)}'"
 
 
+def quote_name_if_needed(name: str) -> str:
+    '''Wrap a name in double quotes unless it is a plain word, that can be parsed unquoted'''
+    if re.fullmatch(r'[A-Za-z0-9_]+', name):
+        return name
+    return f'"{name}"'
+
+
+def quote_type_if_needed(type_: str) -> str:
+    '''Wrap a column type in double quotes unless it can be parsed unquoted: word, word.word, word[], word(args)'''
+    if re.fullmatch(r'[A-Za-z0-9_]+(\.[A-Za-z0-9_]+|\[\]|\(.*\))?', type_, flags=re.DOTALL):
+        return type_
+    return f'"{type_}"'
+
+
 def comment_to_dbml(val: str) -> str:
     return comment(val, '//')
